@@ -25,12 +25,13 @@
    * scalar → list promotion keyed by name in a dict (association list, `assign` keeps the position);
    * the all-or-nothing charset loop of `process_urlencoded` (a `UnicodeDecodeError` anywhere discards
      the whole attempt), 400 when every attempt fails, 404 for the query string, query before body;
-   * the image-map branch (only an exact `N,M`; `int()` refuses more than 4300 digits → ValueError,
-     which nothing catches → 500).
+   * the image-map branch (only an exact `N,M` with 1–18 digits each, so `int()` cannot fail);
+   * a charset name CPython does not know (or that is not a text encoding): `LookupError` is caught like a
+     decoding failure, so such a charset is an attempt that fails on the first key it has to decode.
   Not modelled: `keep_blank_values=False` / `strict_parsing=True` (CherryPy never passes them),
   `entity.params` non-empty before `process_urlencoded` runs (it is `{}` for a RequestBody),
   `request.uri_encoding` ≠ utf-8, a non-ASCII PATH_INFO (recode_path_qs transcodes path and query in
-  one `try`), unknown charset names (LookupError, property C07), multipart bodies (C04).
+  one `try`), an unknown `request.query_string_encoding` (configuration error), multipart bodies (C04).
   Charset codecs are the functions `decode`: UTF-8 is core Lean's verified decoder, Latin-1 / ASCII /
   UTF-16 (BOM, little-endian default as on the build host) are written here.
 -/
@@ -70,6 +71,9 @@ end Prim
 
 inductive Charset where
   | utf8 | latin1 | ascii | utf16 | utf16le | utf16be
+  /-- a name `bytes.decode` answers with LookupError (CPython returns `''` for empty input before it
+      even looks the codec up) -/
+  | unknown
   deriving DecidableEq, Repr
 
 def utf8Enc (s : Text) : Bytes := s.flatMap String.utf8EncodeChar
@@ -116,6 +120,7 @@ def decode : Charset → Bytes → Option Text
   | .utf16 => utf16Dec
   | .utf16le => utf16Units false
   | .utf16be => utf16Units true
+  | .unknown => fun b => if b.isEmpty then some [] else none
 
 /-! ## Parameter dictionaries -/
 
@@ -219,35 +224,27 @@ def parseQsPairs (dec : Bytes → Option Text) : List Text → Params → Option
 
 def isDigit (c : Char) : Bool := '0' ≤ c ∧ c ≤ '9'
 
-/-- `image_map_pattern.fullmatch(qs)` for the pattern `[0-9]+,[0-9]+`, returning the two digit runs
-    (`qs.split(',')`). -/
+/-- Longest digit run `image_map_pattern` accepts (`[0-9]{1,18}`). -/
+def maxCoordDigits : Nat := 18
+
+/-- `image_map_pattern.fullmatch(qs)` for the pattern `[0-9]{1,18},[0-9]{1,18}`, returning the two
+    digit runs (`qs.split(',')`). -/
 def imageMap? (qs : Text) : Option (Text × Text) :=
   match partition1 ',' qs with
   | (a, some b) =>
-    if !a.isEmpty ∧ a.all isDigit ∧ !b.isEmpty ∧ b.all isDigit then some (a, b) else none
+    if !a.isEmpty ∧ a.all isDigit ∧ a.length ≤ maxCoordDigits ∧
+       !b.isEmpty ∧ b.all isDigit ∧ b.length ≤ maxCoordDigits then some (a, b) else none
   | (_, none) => none
 
-/-- `int(s)` for a string of ASCII digits (value only). -/
+/-- `int(s)` for a string of ASCII digits. -/
 def decNat (s : Text) : Nat := s.foldl (fun n c => n * 10 + (c.toNat - '0'.toNat)) 0
 
-/-- `sys.int_info.default_max_str_digits`: `int()` raises ValueError beyond it. -/
-def maxStrDigits : Nat := 4300
-
-inductive QsErr where
-  | unicodeDecode   -- → HTTPError 404 in process_query_string
-  | valueError      -- int() digit limit in the image-map branch: uncaught → 500
-  deriving DecidableEq, Repr
-
-/-- `httputil.parse_query_string(qs, encoding=enc)`. -/
-def parseQueryString (dec : Bytes → Option Text) (qs : Text) : Except QsErr Params :=
+/-- `httputil.parse_query_string(qs, encoding=enc)`; `none` = UnicodeDecodeError (→ 404 in
+    `Request.process_query_string`). -/
+def parseQueryString (dec : Bytes → Option Text) (qs : Text) : Option Params :=
   match imageMap? qs with
-  | some (a, b) =>
-    if a.length > maxStrDigits ∨ b.length > maxStrDigits then .error .valueError
-    else .ok [(['x'], .one (.int (decNat a))), (['y'], .one (.int (decNat b)))]
-  | none =>
-    match parseQsPairs dec (pairStrings qs) [] with
-    | some d => .ok d
-    | none => .error .unicodeDecode
+  | some (a, b) => some [(['x'], .one (.int (decNat a))), (['y'], .one (.int (decNat b)))]
+  | none => parseQsPairs dec (pairStrings qs) []
 
 /-- `AppResponse.recode_path_qs` for the query string: the WSGI server hands over the raw bytes as
     Latin-1 text; they are re-read as UTF-8 when valid, else passed through as Latin-1 text. -/
@@ -296,7 +293,8 @@ def rawPairs (qs : Bytes) : List (Bytes × Bytes) :=
     else match partition1 0x3D pair with
       | (k, v?) => some (k, v?.getD [])
 
-/-- One charset attempt: every key and value must decode, else the whole attempt is void. -/
+/-- One charset attempt: every key and value must decode, else the whole attempt is void
+    (`except (LookupError, UnicodeError): pass`). -/
 def decodePairs (dec : Bytes → Option Text) : List (Bytes × Bytes) → Params → Option Params
   | [], d => some d
   | (k, v) :: rest, d =>
@@ -358,9 +356,8 @@ inductive Outcome where
 /-- `_do_respond` from `process_query_string` to the handler call. -/
 def handle (r : Req) : Outcome :=
   match parseQueryString (decode r.qsEnc) (recodeQS r.qs) with
-  | .error .unicodeDecode => .status 404
-  | .error .valueError => .status 500
-  | .ok p =>
+  | none => .status 404
+  | some p =>
     match r.body with
     | none => .handler p
     | some (attempts, bytes) =>
